@@ -9,7 +9,17 @@ import (
 
 // C06: listing, stat and dir-size report the true tree.
 
-var c06Kinds = []string{"file", "dir", "symfile", "symdir", "dangling"}
+var c06Kinds = []string{"file", "dir", "symfile", "symdir", "dangling", "selfloop", "thrufile"}
+
+func c06HasLateKind(ki, k int) bool {
+	for i := 0; i < k; i++ {
+		if ki%len(c06Kinds) >= 5 {
+			return true
+		}
+		ki /= len(c06Kinds)
+	}
+	return false
+}
 
 func c06MakeEntry(dir, name, kind string, w *World) {
 	p := filepath.Join(dir, name)
@@ -25,20 +35,24 @@ func c06MakeEntry(dir, name, kind string, w *World) {
 		must(os.Symlink(filepath.Join(w.Root, "targets", "tdir"), p))
 	case "dangling":
 		must(os.Symlink(filepath.Join(w.Root, "targets", "nothing"), p))
+	case "selfloop": // resolving fails with ELOOP, not ENOENT
+		must(os.Symlink(p, p))
+	case "thrufile": // resolving fails with ENOTDIR
+		must(os.Symlink(filepath.Join(w.Root, "targets", "tfile", "x"), p))
 	}
 }
 
 func TestC06(t *testing.T) {
 	r := NewReporter(t)
 	defer r.Done()
-	r.Rule("directories with 0..3 entries of every kind combination (file, dir, symlink->file, symlink->dir, dangling) and name sets (ASCII, space, non-ASCII, 255 bytes) x every interleaving of {ReadDir, ReadDirEntry, ReadDirEntryV2} of length <= entries+2 after OpenDir; entry-count families; Stat and GetDirSize on every path of every tree with <= 3 nodes; distinct by (directory shape, command sequence)")
+	r.Rule("directories with 0..3 entries of every kind combination (file, dir, symlink->file, symlink->dir, dangling, self-referencing link, link through a regular file) and name sets (ASCII, space, non-ASCII, 255 bytes, not valid UTF-8) x every interleaving of {ReadDir, ReadDirEntry, ReadDirEntryV2} of length <= entries+2 after OpenDir; entry-count families; Stat and GetDirSize on every path of every tree with <= 3 nodes; distinct by (directory shape, command sequence)")
 	w := newWorld(t, "srv/root")
 	defer w.Cleanup()
 	mkFileAbs(filepath.Join(w.Root, "targets", "tfile"), 1234, 7, baseTime.Add(time1(40)))
 	must(os.MkdirAll(filepath.Join(w.Root, "targets", "tdir"), 0o755))
 	mkFileAbs(filepath.Join(w.Root, "targets", "tdir", "x"), 10, 7, baseTime)
 
-	nameSets := [][]string{{"a", "B.TXT", "c d"}, {"é", strings.Repeat("n", 255), "ж.iso"}}
+	nameSets := [][]string{{"a", "B.TXT", "c d"}, {"é", strings.Repeat("n", 255), "ж.iso"}, {"\xc8\xe3\xf0\xe0.iso", "a\xff\xfeb", "\xfe\xfe"}}
 	lops := []uint16{opReadDir, opReadDirEntry, opReadDirEntryV2}
 	caseIdx := 0
 	gate := newReplayGate(r, "C06", w.Root, w.Dir, false, 17, 2)
@@ -73,6 +87,9 @@ func TestC06(t *testing.T) {
 			for nsi, names := range nameSets {
 				if k == 0 && nsi > 0 {
 					continue
+				}
+				if k == 3 && !r.Thorough() && c06HasLateKind(ki, k) && nsi > 0 {
+					continue // quick: the two unresolvable-link kinds in 3-entry directories only with ASCII names
 				}
 				caseIdx++
 				if !r.Mine(caseIdx) {
